@@ -439,12 +439,21 @@ def selection_traces(R, tier):
                             g = search_grammar()
                             rep = TreeBasedRepresentation(g, MaxDepthDecider(rs, g, 2))
                             inds = [Individual(SLeaf(v), rep) for v in vals]
-                            problem = SingleObjectiveProblem(lambda p: float(p.v), minimize=minimise)
                             ev_ = SequentialEvaluator()
                             events, ids = [], Ids()
                             other = SingleObjectiveProblem(lambda p: -float(p.v), minimize=minimise)
                             if pre:
+                                # the same individuals have already been through tournaments for ANOTHER problem that ranks them
+                                # the other way round; for half of the populations that problem is then dropped, so that the
+                                # problem under test may even be allocated where the old one was
                                 SequentialEvaluator().evaluate(other, inds)
+                                list(TournamentSelection(2, with_replacement=True).apply(other, SequentialEvaluator(), rep,
+                                                                                          NativeRandomSource(3), list(inds), 3, 1))
+                                if len(vals) % 2 == 0:
+                                    other = None
+                                    import gc
+                                    gc.collect()
+                            problem = SingleObjectiveProblem(lambda p: float(p.v), minimize=minimise)
                             ev_.evaluate(problem, inds)
                             popr = [ind_rec(ids, x, problem) for x in inds]
                             log = ChoiceLog(src, events, ids, problem)
